@@ -3,6 +3,8 @@ package progress
 import (
 	"sync/atomic"
 	"time"
+
+	"github.com/form3tech-oss/f1/v2/internal/verifhook"
 )
 
 type IterationDurationsSnapshot struct {
@@ -102,6 +104,7 @@ func (d *DurationStats) Record(nanoseconds int64) {
 func (d *DurationStats) CollectLifetime() (IterationDurationsSnapshot, IterationDurationsSnapshot) {
 	running := d.running.Snapshot()
 	d.lifetime.Update(&d.running)
+	verifhook.Yield("progress.collect.mid")
 	d.running.Reset()
 
 	return running, d.lifetime.Snapshot()
